@@ -69,3 +69,14 @@ prop("C12", module="MW.Props.C12", title="two-step seven-day handover (both cont
 prop("C13", module="MW.Props.C13", title="treasury swaps and spending", skip_staking=True, extra=["treasury"],
      variants=[], state_keys=["config", "admin"], pure=["treasury_validate_address"],
      assumptions=["the treasury hard-codes the prefixes osmo / celestia (as the code does)"])
+
+prop("C05", module="MW.Props.C05", title="pro-rata, at-most-once withdrawal",
+     variants=["liquid_unstake", "withdraw", "submit_batch", "receive_unstaked_tokens"],
+     state_keys=["requests", "batches"], pure=["multiply_ratio"],
+     weights={"unstake": 22, "withdraw": 22, "submit": 10, "deliver": 12, "stake": 14, "advance": 10})
+
+prop("C06", module="MW.Props.C06", title="batch lifecycle and timing",
+     variants=["submit_batch", "receive_unstaked_tokens", "liquid_unstake", "instantiate"],
+     state_keys=["batches", "pending"],
+     weights={"submit": 22, "deliver": 16, "advance": 22, "unstake": 14, "stake": 10},
+     assumptions=["block time is whole nanoseconds; deadlines compare whole seconds (env.block.time.seconds())"])
